@@ -721,7 +721,8 @@ theorem runValid_fresh (F : CloneFacts) (hF : F.fresh = true) (i : Input) :
       { validated := true, verifierAccepts := true, queries := i.queries.map (pureT i)
         globalSel := match i.kind with
           | .oci => none
-          | .blob => some (pureQ i.stmts .global false (classOf (selectGlobal i.stmts)) []) } := by
+          | .blob => some (pureQ i.stmts .global false (classOf (selectGlobal i.stmts)) [])
+        registry := i.registryQueries.map (regObs i.stmts) } := by
   have h0 : Inv { doc := i.stmts, handles := [] } := by intro c hc; cases hc
   have h := runQueries_fresh F hF i i.queries { doc := i.stmts, handles := [] } h0 rfl
   unfold runValid
